@@ -259,6 +259,7 @@ func TestZZHvReplay(t *testing.T) {
 			case *types.Slice:
 				// []byte is JSON-encoded as base64 by encoding/json; decode via Go
 				bs := decodeB64(fmt.Sprint(obs.Results[i]))
+				obs.Results[i] = fmt.Sprintf("bytes[% x]", bs)
 				ref := vc.fresh("obs_slice", SRef)
 				hn, hs := x.sliceHeap(u.Elem())
 				h := x.heapGet(x.entry, hn, hs)
